@@ -41,10 +41,13 @@ def isTIL : Reg → Bool
   | _ => false
 
 /-- first step of the `Op::Bind` arm: a left register whose recorded type is still a name gets the
-type of the right-hand side (`scope.update_type(&s, &right_type)?`) -/
+type of the right-hand side (`scope.update_type(&s, &right_type)?`) unless that type is itself a name -/
 def bindTarget (left right : Reg) (sc : Scope) : Out (Reg × Scope) :=
   match left.getType with
-  | .name s => sc.updateType s right.getType
+  | .name s =>
+    match right.getType with
+    | .name _ => .ok (left, sc)          -- an untyped right-hand side has no type to give (fix F11)
+    | t => sc.updateType s t
   | _ => .ok (left, sc)
 
 /-- second step: the `match (&left, &right)` -/
